@@ -290,6 +290,9 @@ def _gen_uuid4(r, k, depth):
 def _gen_datetime(r, k, depth):
     w = datetime(r.randint(1971, 2090), r.randint(1, 12), r.randint(1, 28), r.randint(0, 23),
                  r.randint(0, 59), r.randint(0, 59), r.choice((0, 999999, r.randrange(10 ** 6))))
+    if r.random() < 0.1:
+        from datetime import timezone
+        w = w.replace(tzinfo=timezone(timedelta(hours=r.choice((0, 3, -8)), minutes=r.choice((0, 30)))))
     s = {"t": "datetime"}
     if k.no_clock or r.random() < k.p_value:
         s["value"] = enc(w)
@@ -404,8 +407,8 @@ def _gen_dict(r, k, depth, include_all=False):
     w = {}
     used = set()
     for _ in range(n):
-        if r.random() < 0.1:
-            key = r.choice((1, 0, -5, 42))
+        if r.random() < 0.12:
+            key = r.choice((1, 0, -5, 42, ("a", 1), None, 2.5, b"k"))
         else:
             key = r.choice(KEY_POOL)
         if key in used:
@@ -440,8 +443,22 @@ def _gen_alias(r, k, depth):
     return {"t": "alias", "name": r.choice(("Alias", "UserId", "T")), "inner": sub}, sw
 
 
+def gen_plain(r, depth=2):
+    """A plain nested value (for from_native and untyped positions)."""
+    x = r.random()
+    if depth > 0 and x < 0.25:
+        return [gen_plain(r, depth - 1) for _ in range(r.randint(0, 3))]
+    if depth > 0 and x < 0.5:
+        return {r.choice(KEY_POOL): gen_plain(r, depth - 1) for _ in range(r.randint(0, 3))}
+    return _filler(r)
+
+
 def _gen_op(r, k, depth):
-    op = r.choice(("+", "|", "%", "%", "make_required"))
+    op = r.choice(("+", "|", "%", "%", "make_required", "from_native"))
+    if op == "from_native":
+        v = gen_plain(r, min(depth, 3))
+        if k.no_clock is False or True:
+            return {"t": "op", "op": "from_native", "v": enc(v)}, v
     if op == "|":
         a, aw = gen(r, k, depth - 1)
         b, bw = gen(r, k, depth - 1)
@@ -562,6 +579,8 @@ def witness_of(spec, r):
             return w
         if op == "%":
             return _overlay(witness_of(spec["s"], r), dec(spec["v"]))
+        if op == "from_native":
+            return dec(spec["v"])
     raise ValueError(t)
 
 
@@ -630,6 +649,8 @@ class Env:
         self.schema = schema
         self.optional = optional
         self.make_required = make_required
+        from d42.utils import from_native
+        self.from_native = from_native
         self.DeclarationError = DeclarationError
         self.SubstitutionError = SubstitutionError
         self.retain = None        # callable(container, role) -> None ; C07 keeps every container handed to d42
@@ -749,6 +770,11 @@ def _build(spec, env):
             if env.retain and type(val) in (list, dict):
                 env.retain(val, "substitute_arg")
             return _build(spec["s"], env) % val
+        if op == "from_native":
+            val = dec(spec["v"])
+            if env.retain and type(val) in (list, dict):
+                env.retain(val, "from_native_arg")
+            return env.from_native(val)
         if op == "make_required":
             ks = spec["keys"]
             kl = None if ks is None else [dec(x) for x in ks]
